@@ -749,3 +749,127 @@ def c01_search(rng, rounds=1):
                     if bad:
                         fails.append(dict(kind='c01', method=method, sde_type=sde_type, noise=noise, grad_free=gf, seed=seed, family=family, why=bad))
     return fails[:3], st
+
+
+# ---------------------------------------------------------------------------------------------------------------
+# C08: backprop through the real sdeint vs directional central finite differences (Brownian path held fixed)
+# ---------------------------------------------------------------------------------------------------------------
+
+class _FrozenController:
+    """record the controller's decisions of one adaptive run (mode 'rec'), then replay them verbatim (mode 'play') so that the
+    step-size schedule is held fixed while the inputs are perturbed"""
+
+    def __init__(self):
+        from torchsde._core import adaptive_stepping
+        self.mod = adaptive_stepping
+        self.saved = (adaptive_stepping.compute_error, adaptive_stepping.update_step_size)
+        self.errs, self.upds, self.mode, self.i, self.j = [], [], 'off', 0, 0
+
+    def __enter__(self):
+        def ce(*a, **k):
+            if self.mode == 'play':
+                self.i += 1
+                return self.errs[self.i - 1]
+            r = self.saved[0](*a, **k)
+            if self.mode == 'rec':
+                self.errs.append(r)
+            return r
+
+        def us(*a, **k):
+            if self.mode == 'play':
+                self.j += 1
+                return self.upds[self.j - 1]
+            r = self.saved[1](*a, **k)
+            if self.mode == 'rec':
+                self.upds.append(r)
+            return r
+        self.mod.compute_error, self.mod.update_step_size = ce, us
+        return self
+
+    def __exit__(self, *a):
+        self.mod.compute_error, self.mod.update_step_size = self.saved
+
+
+def c08_case(method, sde_type, noise, d, m, batch, seed, dt, ts, grad_free=False, adaptive=False, tol=1e-3, eps=1e-6,
+             freeze=False):
+    if freeze:
+        with _FrozenController() as fc:
+            return _c08_case(method, sde_type, noise, d, m, batch, seed, dt, ts, grad_free, adaptive, tol, eps, fc)
+    return _c08_case(method, sde_type, noise, d, m, batch, seed, dt, ts, grad_free, adaptive, tol, eps, None)
+
+
+def _c08_case(method, sde_type, noise, d, m, batch, seed, dt, ts, grad_free, adaptive, tol, eps, fc):
+    torch.manual_seed(seed)
+    sde = RandSDE(noise, sde_type, d, m, seed)
+    g0 = torch.Generator().manual_seed(seed)
+    y0 = (0.3 * torch.randn(batch, d, generator=g0, dtype=torch.float64)).requires_grad_(True)
+    params = [p for p in sde.parameters()]
+    w = torch.randn(len(ts), batch, d, generator=g0, dtype=torch.float64)
+    p = dict(method=method, batch=batch, m=sde.m, seed=seed)
+    kw = dict(method=method, dt=dt)
+    if grad_free:
+        kw['options'] = dict(grad_free=True)
+    if adaptive:
+        kw.update(adaptive=True, rtol=tol, atol=tol, dt_min=1e-5)
+
+    def loss(y):
+        with core.time_limit(120):
+            ys = torchsde.sdeint(sde, y, ts, bm=make_bm(p, ts[0], ts[-1]), **kw)
+        return (w * ys).sum()
+    if fc:
+        fc.mode = 'rec'
+    L = loss(y0)
+    grads = torch.autograd.grad(L, [y0] + params, allow_unused=True)
+    dirs = [torch.randn(x.shape, generator=g0, dtype=torch.float64) for x in [y0] + params]
+    an = sum(float((g * dv).sum()) for g, dv in zip(grads, dirs) if g is not None)
+    with torch.no_grad():
+        vals = []
+        for sgn in (+1, -1):
+            for x, dv in zip(params, dirs[1:]):
+                x.add_(sgn * eps * dv)
+            if fc:
+                fc.mode, fc.i, fc.j = 'play', 0, 0
+            vals.append(float(loss(y0.detach() + sgn * eps * dirs[0])))
+            for x, dv in zip(params, dirs[1:]):
+                x.sub_(sgn * eps * dv)
+    fd = (vals[0] - vals[1]) / (2 * eps)
+    return an, fd
+
+
+def c08_search(rng, n, adaptive_share=0.0):
+    fails, st = [], dict(evals=0, worst_rel=0.0, adaptive=0, by_method={})
+    for _ in range(n):
+        method, sde_type, noise = random_solver(rng)
+        cfg = dict(method=method, sde_type=sde_type, noise=noise, d=rng.choice([1, 2, 3]), m=rng.choice([1, 2, 3]),
+                   batch=rng.choice([1, 2]), seed=rng.randrange(10 ** 6), dt=rng.choice([0.125, 0.0625, 0.1]),
+                   grad_free=(method == 'milstein' and noise != 'additive' and rng.random() < 0.4))
+        dt = cfg['dt']
+        cfg['ts'] = random_ts(rng, dt)[0][:4]
+        if len(cfg['ts']) < 2:
+            cfg['ts'] = [0.0, 0.3]
+        cfg['adaptive'] = rng.random() < adaptive_share
+        try:
+            an, fd = c08_case(**cfg)
+            rel = abs(an - fd) / max(1.0, abs(an), abs(fd))
+            bad = None if rel <= 2e-6 else f"backprop directional derivative {an} vs central finite difference {fd} (rel {rel:.2e})"
+            if bad and cfg['adaptive']:
+                # known finding F6: backprop ignores the dependence of the solution on the inputs THROUGH the step-size schedule.
+                # With the controller's decisions replayed verbatim (schedule frozen) backprop must equal the finite difference.
+                an2, fd2 = c08_case(freeze=True, **cfg)
+                rel2 = abs(an2 - fd2) / max(1.0, abs(an2), abs(fd2))
+                if rel2 <= 2e-6:
+                    st['F6_instances'] = st.get('F6_instances', 0) + 1
+                    bad = None
+                else:
+                    bad += f"; with the schedule frozen: {an2} vs {fd2} (rel {rel2:.2e})"
+        except Exception as e:  # noqa
+            bad, rel = f"{type(e).__name__}: {e}", 0.0
+        st['evals'] += 1
+        st['adaptive'] += int(cfg['adaptive'])
+        st['by_method'][method] = st['by_method'].get(method, 0) + 1
+        st['worst_rel'] = max(st['worst_rel'], rel)
+        if bad:
+            fails.append(dict(kind='c08', why=bad, **cfg))
+            if len(fails) >= 2:
+                break
+    return fails, st
